@@ -264,6 +264,7 @@ func runC20(w *W, i uint64) {
 		re := reDefault
 		eng := re.VerifEngine()
 		buf := make([][2]int, 0, 1<<16)
+		buf4 := make([][2]int, 0, 4)
 		for k, h := range pool {
 			if len(h) > 4096 {
 				continue
@@ -283,6 +284,7 @@ func runC20(w *W, i uint64) {
 					}
 				}},
 				{"AppendAllIndex", func() { buf = re.AppendAllIndex(buf[:0], h, -1) }},
+				{"AppendAllIndex(n=2,cap=4)", func() { buf4 = re.AppendAllIndex(buf4[:0], h, 2) }},
 			}
 			matched := false
 			callNoPanic(func() { matched = re.Match(h) })
